@@ -9,7 +9,7 @@ use libmctp::control_packet::{CommandCode, CompletionCode};
 use serde_json::{json, Value};
 
 /// (observed text, violation)
-fn judge(which: &str, b: u8) -> (String, Option<String>) {
+pub fn judge(which: &str, b: u8) -> (String, Option<String>) {
     match which {
         "command_code" => match trap(|| CommandCode::from(b) as u8) {
             Ok(v) => {
